@@ -51,7 +51,8 @@ def build(code_a, code_b, layout, nenum, cls_enum, fshape, ignore_which, ser=(0,
         if d["base"] == 1:
             d["base_name"] = None          # "previous class" only makes sense inside one namespace; keep external/none here
             d["base"] = 0
-    a["enums"] = [("Kind", ["K1", "K2", "K3"])] if cls_enum else []
+    # (with namespace enums present the class also declares an enum of the SAME name as the namespace-level one next to it)
+    a["enums"] = ([("Kind", ["K1", "K2", "K3"])] + ([("Color", ["Cyan", "Magenta"])] if nenum else [])) if cls_enum else []
     b["enums"] = []
     a["serialize"], b["serialize"] = bool(ser[0]), bool(ser[1])
     funcs = ms.FUNC_SHAPES[fshape]
